@@ -427,3 +427,46 @@ func genBatch(r *rng, tier, prop string, st *stats) []taggedScen {
 	st.Rule = "enumeration + seeded random; non-trivial when the batch has more than one item; distinct by scenario hash"
 	return out
 }
+
+// batchPool: a small mixed set of batch scenarios (sequential and gated concurrent) that every
+// engine-family check runs besides its own enumeration.
+func batchPool(r *rng, tier string) []taggedScen {
+	var out []taggedScen
+	n := 60
+	if tier == "thorough" {
+		n = 600
+	}
+	impls := []string{"opt", "bld", "mix"}
+	for i := 0; i < n; i++ {
+		k := 1 + r.intn(5)
+		N := 1 + r.intn(3)
+		p := batchPlan{n: k, conc: r.intn(4), N: N, fb: pick(r, []string{"default", "user"}), exec: pick(r, []string{"res", "any"}),
+			shape: pick(r, batchShapes), impl: pick(r, impls), release: relOf(randOrder(r, k), N, r.chance(50)),
+			postAct: pick(r, []int{5, 1, 0}), stop: r.chance(30), inFlow: r.chance(30)}
+		p.items = make([]itemPlan, k)
+		for j := range p.items {
+			ip := itemPlan{cancelAt: -1, fbOK: r.chance(50)}
+			switch r.intn(5) {
+			case 0: // fails a few times, then succeeds (within or beyond the budget)
+				for a := 0; a < 1+r.intn(N); a++ {
+					ip.outs = append(ip.outs, false)
+				}
+			case 1: // the exec function reports failure as an error Result
+				ip.errRes = true
+				ip.outs = []bool{true}
+			case 2: // never succeeds
+				for a := 0; a <= N; a++ {
+					ip.outs = append(ip.outs, false)
+				}
+			}
+			p.items[j] = ip
+		}
+		if r.chance(8) {
+			p.items[r.intn(k)].cancelAt = r.intn(N)
+		}
+		sc := p.scen()
+		sc.tags = append(sc.tags, "pool")
+		out = append(out, sc)
+	}
+	return out
+}
